@@ -3,6 +3,7 @@ import TnVerif.Model.Tensor
 import TnVerif.Model.Eval
 import TnVerif.Model.Arith
 import TnVerif.Model.Format
+import TnVerif.Model.Index
 /-
   Line-protocol driver (DESIGN §2.6).  One request per line on stdin, one answer per line on
   stdout.  Tokens are separated by blanks; numbers are integers or `p/q`.
@@ -114,6 +115,34 @@ def pIntList : PM (List Int) := do
   for _ in [0:n] do l := l.push (← pInt)
   return l.toList
 
+def pOptInt : PM (Option Int) := do
+  let t ← next
+  if t == "_" then return none
+  match t.toInt? with
+  | some n => return some n
+  | none => throw s!"int or _ expected: {t}"
+
+def pKey : PM (List RawItem) := do
+  let k ← next
+  if k != "K" then throw s!"K expected: {k}"
+  let n ← pNat
+  let mut items : Array RawItem := #[]
+  for _ in [0:n] do
+    let t ← next
+    if t == "i" then items := items.push (.int (← pInt))
+    else if t == "s" then
+      let a ← pOptInt; let b ← pOptInt; let c ← pOptInt
+      items := items.push (.slice a b c)
+    else if t == "n" then items := items.push .none
+    else if t == "e" then items := items.push .ellipsis
+    else if t == "a" then items := items.push (.arr (← pIntList))
+    else throw s!"key item expected: {t}"
+  return items.toList
+
+def showErr : IdxErr → String
+  | .outOfRange => "outOfRange" | .tooMany => "tooMany" | .twoEllipsis => "twoEllipsis"
+  | .runBroken => "runBroken" | .lenMismatch => "lenMismatch" | .badStep => "badStep"
+
 /-! printing -/
 def showQ (q : Q) : String :=
   if q.den == 1 then toString q.num else s!"{q.num}/{q.den}"
@@ -167,6 +196,13 @@ def run (cmd : String) : PM String := do
       return "ok " ++ showTensor (t.decompSome (bits.map (· != 0)))
   | "tt" => do let t ← pTensor; return "ok " ++ showTensor t.tt
   | "transpose" => do let t ← pTensor; return "ok " ++ showTensor t.transpose
+  | "getitem" => do
+      let key ← pKey
+      let t ← pTensor
+      match t.getitem key with
+      | .error e => return "err " ++ showErr e
+      | .ok (.inl r) => return "ok " ++ showTensor r
+      | .ok (.inr x) => return "ok S " ++ showQ x
   | _ => throw s!"unknown command {cmd}"
 
 def handle (line : String) : String :=
